@@ -90,6 +90,9 @@ def main(ctx):
             if mate:
                 modes.append(("obiconvert-2files-first", [conv, "--max-cpu", "2", f["file"], mate], None))
                 modes.append(("obiconvert-2files-last", [conv, "--max-cpu", "2", mate, f["file"]], None))
+                # the faulted file as the file of the mates of an intact forward file
+                pout = ctx.path("paired_out_%d" % len(jobs))
+                modes.append(("obiconvert-paired-mate", [conv, "--max-cpu", "2", "--paired-with", f["file"], "-o", pout, mate], None))
         for name, argv, stdin in modes:
             jobs.append({"argv": argv, "stdin": stdin})
             evs.append({"op": "file", "mode": name, "codec": f["codec"], "fault": f["fault"], "t": f["t"], "clen": f["clen"],
